@@ -912,8 +912,14 @@ def main():
     limit = float(os.environ.get('VERIF_CASE_TIMEOUT', '30'))
     signal.signal(signal.SIGALRM, _alarm)
     timeouts = 0
+    import time as _time
+    t_start = _time.time()
+    budget = float(os.environ.get('VERIF_BATCH_BUDGET', '1500'))
     for line in sys.stdin:
         line = line.rstrip('\n')
+        if _time.time() - t_start > budget:
+            out.write('ERROR timeout: skipped, this batch used up its time budget of %.0f s (cases far slower than on the unchanged tree)\n' % budget)
+            continue
         if timeouts >= 3:
             # do not let a non-terminating implementation stall the whole check
             out.write('ERROR timeout: skipped after %d cases of this batch ran into the per-case limit\n' % timeouts)
